@@ -14,37 +14,66 @@ VERIF = assemble.VERIF
 CACHE = os.path.join(VERIF, ".cache", "native-deps")
 
 
-def ensure_deps_cache():
-    """compiled dependencies (release, test profile) once; every run copies it -- runs never share a target dir"""
-    os.makedirs(os.path.dirname(CACHE), exist_ok=True)
-    lock = open(os.path.join(VERIF, ".cache", "native-deps.lock"), "w")
+def ensure_deps_cache(overflow_checks=False):
+    """compiled dependencies (release, test profile) once per build flavour; every run copies it -- runs never
+    share a target dir"""
+    cache = CACHE + ("-oc" if overflow_checks else "")
+    os.makedirs(os.path.dirname(cache), exist_ok=True)
+    lock = open(cache + ".lock", "w")
     fcntl.flock(lock, fcntl.LOCK_EX)
     try:
-        if os.path.exists(os.path.join(CACHE, ".complete")):
-            return
-        shutil.rmtree(CACHE, ignore_errors=True)
+        if os.path.exists(os.path.join(cache, ".complete")):
+            return cache
+        shutil.rmtree(cache, ignore_errors=True)
         tmp = kani_run.make_scratch("mila-verif-nativedeps.")
         try:
-            env = dict(os.environ, CARGO_TARGET_DIR=CACHE, CARGO_NET_OFFLINE="true")
+            env = dict(os.environ, CARGO_TARGET_DIR=cache, CARGO_NET_OFFLINE="true")
+            if overflow_checks:
+                env["CARGO_PROFILE_RELEASE_OVERFLOW_CHECKS"] = "true"
             p = subprocess.run(["cargo", "test", "--release", "--offline", "--lib", "--no-run"], cwd=tmp, env=env,
                                capture_output=True, text=True, timeout=3600)
             if p.returncode != 0:
                 raise RuntimeError("could not build the native dependency cache: " + p.stderr[-600:])
-            for root, dirs, files in os.walk(CACHE, topdown=False):
+            for root, dirs, files in os.walk(cache, topdown=False):
                 for n in files:
                     if n.startswith(("mila-", "libmila-", "mila.")) or "/mila-" in root:
                         os.remove(os.path.join(root, n))
                 for n in dirs:
                     if n.startswith("mila-"):
                         shutil.rmtree(os.path.join(root, n), ignore_errors=True)
-            open(os.path.join(CACHE, ".complete"), "w").write("ok\n")
+            open(os.path.join(cache, ".complete"), "w").write("ok\n")
         finally:
             shutil.rmtree(tmp, ignore_errors=True)
+        return cache
     finally:
         fcntl.flock(lock, fcntl.LOCK_UN)
 
 
 def run_unit(uname, ucfg, tier, keep=False):
+    r1 = _run_unit(uname, ucfg, tier, keep, overflow_checks=False)
+    if not ucfg.get("overflow_checks_too") or r1.status == "undecided":
+        return r1
+    # "behaves identically with and without arithmetic overflow checks": the same harness once more in a build
+    # with overflow checks on; its failed clauses are reported with the suffix [overflow-checks build]
+    r2 = _run_unit(uname, ucfg, tier, keep, overflow_checks=True)
+    if r2.status == "undecided":
+        return r2
+    have = set(f.clause for f in r1.failures)
+    for f in r2.failures:
+        f.clause = f.clause + "[overflow-checks build]"
+        r1.failures.append(f)
+    for fn in r1.functions:
+        fn["label"] = fn["label"] + " in wrapping and in overflow-checked builds"
+        fn["success"] = fn["success"] and all(g["success"] for g in r2.functions if g["props"] == fn["props"])
+    if r1.failures:
+        r1.status = "failed"
+    r1.cmd += "   ; again with CARGO_PROFILE_RELEASE_OVERFLOW_CHECKS=true"
+    r1.wall_s += r2.wall_s
+    r1.errors = len(r1.failures)
+    return r1
+
+
+def _run_unit(uname, ucfg, tier, keep=False, overflow_checks=False):
     res = UnitResult(uname)
     t0 = time.time()
     tmp = kani_run.make_scratch("mila-verif-native.")
@@ -56,12 +85,14 @@ def run_unit(uname, ucfg, tier, keep=False):
         target = ucfg.get("append_to", "src/lib.rs")
         with open(os.path.join(tmp, target), "a") as f:
             f.write("\n\n" + hsrc)
-        ensure_deps_cache()
+        cache = ensure_deps_cache(overflow_checks)
         private_target = os.path.join(tmp, "target")
-        shutil.copytree(CACHE, private_target, symlinks=True)
+        shutil.copytree(cache, private_target, symlinks=True)
         modname = "__verif_" + uname
         cmd = ["cargo", "test", "--release", "--offline", "--lib", modname, "--", "--nocapture", "--test-threads", "1"]
         env = dict(os.environ, CARGO_TARGET_DIR=private_target, CARGO_NET_OFFLINE="true", VERIF_TIER=tier)
+        if overflow_checks:
+            env["CARGO_PROFILE_RELEASE_OVERFLOW_CHECKS"] = "true"
         res.cmd = " ".join(cmd) + "   (scratch copy of /repo + contracts/native/%s.rs appended to %s)" % (uname, target)
         try:
             p = subprocess.run(cmd, cwd=tmp, env=env, capture_output=True, text=True, timeout=ucfg.get("timeout", 1800))
